@@ -33,6 +33,11 @@ theorem pop_ok {s s' : MState} {v : Val} (h : s.pop = .ok (v, s')) :
     cases h
     exact ⟨vs, hv, rfl⟩
 
+theorem M_bind_eq {α β} {x : M α} {f : α → M β} {a : α} (h : x = .ok a) : (x >>= f) = f a := by
+  rw [h]; rfl
+
+theorem liftE_of_ok {α} {x : Except Err α} {a : α} (h : x = .ok a) : liftE x = .ok a := by rw [h]; rfl
+
 def MState.setSf (s : MState) (x : List SoftforkGuard) : MState := { s with softforkStack := x }
 
 def MState.applyBase (s : MState) (vals envs : List Val) : MState :=
